@@ -25,12 +25,15 @@ Proof.
   intros Hv Hi. unfold add_var. cbn [bind get].
   change (vars (vstate vm lm (size vm))) with vm. rewrite Hv.
   rewrite decide_False by (by intros [? ?]).
-  unfold next_free_level. cbn [bind get].
-  change (lvl2var (vstate vm lm (size vm))) with lm. rewrite Hi.
-  cbn [ret bind modify get]. unfold init_terminal, modify. cbn.
-  rewrite lookup_singleton. cbn.
-  rewrite delete_singleton, insert_singleton, insert_empty.
-  unfold nvars. cbn. done.
+  assert (E1 : next_free_level (Some i) (vstate vm lm (size vm))
+               = (Ok i, vstate vm lm (size vm))).
+  { unfold next_free_level. cbn [bind get].
+    change (lvl2var (vstate vm lm (size vm))) with lm. by rewrite Hi. }
+  rewrite (bind_ok _ _ _ _ _ E1). cbn [bind modify get].
+  unfold init_terminal, modify, ret, vstate, set, nvars, bind.
+  cbn [succ pred refc min_free ite_tab vars lvl2var last_len rctx roots tape trig].
+  rewrite !lookup_singleton. cbn [default].
+  rewrite delete_singleton, insert_singleton. reflexivity.
 Qed.
 
 (** the variable loop of [BDD(levels)] *)
